@@ -81,10 +81,13 @@ func runC13(c *runCtx) {
 		for i := range b {
 			b[i] = al[r.Intn(len(al))]
 		}
+		if r.Intn(5) == 0 { // text beyond ASCII: a limit may fall inside a multi-byte sequence
+			return string(b) + []string{"é", "€", "ï", "日本", "ß"}[r.Intn(5)]
+		}
 		return string(b)
 	}
 	jsonVal := func() string {
-		l := []string{`{"a":1}`, `[1,2,3]`, `{"k":"v","n":null}`, `[]`, `{}`, `"str"`, `12`, `true`, `{"nested":{"x":[1,{"y":2}]}}`, `[ {"a" : 1} , 2 ]`}
+		l := []string{`{"a":1}`, `[1,2,3]`, `{"k":"café €","n":[1,2]}`, `{"k":"v","n":null}`, `[]`, `{}`, `"str"`, `12`, `true`, `{"nested":{"x":[1,{"y":2}]}}`, `[ {"a" : 1} , 2 ]`}
 		return l[r.Intn(len(l))]
 	}
 	nt := 60
@@ -96,6 +99,9 @@ func runC13(c *runCtx) {
 		kindSel := r.Intn(3)
 		var lines []string
 		rows := 2 + r.Intn(6)
+		if it%4 == 3 {
+			rows = 9 + r.Intn(9) // longer tables: every complete line counts, not only the first few
+		}
 		cols := 2 + r.Intn(4)
 		sep := ","
 		kind := "csv"
